@@ -77,40 +77,48 @@ CHECKS.update({
     "C05": mixed("contract obligations: Scope.__iter__ strictly increasing for every finite set of ids (set iteration modelled as arbitrary order); "
                  "differentiate_polynomial_layer coefficients / degree / zero polynomial / refusal for orders 1..3; TorchPolynomialDifferential kernel; "
                  "functional.differentiate executed on four templates (single polynomial, 2-ary Kronecker and Hadamard products, 3-ary product) for orders 1-2: "
-                 "outputs variable-major then order, differentiated input kept at its position in Kronecker products; arbitrary DAGs only by the bounded "
-                 "stand-in vs exact polynomial derivatives"),
+                 "outputs variable-major then order, differentiated input kept at its position in Kronecker products; the layer loop by the loop rule (input / sum / "
+                 "product steps for every interleaving of symbolic variable ids; suffix); copies of the differential node keep its order; arbitrary DAGs "
+                 "end-to-end only by the bounded stand-in vs exact polynomial derivatives (incl. a second operator on a derivative circuit)"),
     "C06": mixed("contract obligations: functional.evidence executed symbolically on four templates x three input kinds (observed layers become evidence "
                  "layers over a reference copy observing the value of their own variable, scope = scope \\ obs, refusals) and functional.concatenate on "
                  "three operand pairs (layers and outputs operand by operand); evidence-layer kernel (same value for every batch row, wrapped layer at the "
                  "observation of its fold); the loop of functional.evidence by the Hoare loop rule (one iteration from an arbitrary map state); tensors of "
-                 "different dtype never share a fold, evidence layers fold only with equal wrapped configuration; arbitrary DAG shapes / flags by the bounded stand-in"),
+                 "different dtype never share a fold, evidence layers fold only with equal wrapped configuration (grouping key recurses into sub-modules); "
+                 "functional.concatenate by the loop rule (nested loops: layer step, operand outputs in declared order, suffix); arbitrary DAG shapes / flags by the "
+                 "bounded stand-in"),
     "C07": mixed("contract obligations: every conjugation rule keeps class, scope, configuration and EVERY parameter (conjugated for embedding / "
                  "polynomial / sum, carried over for categorical / gaussian incl. log_partition) for complex and real operands and for references into "
                  "operand tensors; functional.conjugate on four templates x four input kinds (outputs in DECLARED order) and its loop by the Hoare loop rule; "
-                 "numeric clause conj(c) incl. conjugate of derived circuits by the bounded stand-in"),
+                 "compile_parameter never compiles a conjugation away unless every tensor underneath is real; numeric clause conj(c) incl. conjugates of derived "
+                 "circuits and of mixed real x complex products by the bounded stand-in"),
     "C08": mixed("contract obligations on circuit templates whose variable ids are symbolic and NOT assumed distinct (every equality pattern of the ids "
                  "is explored): is_smooth / is_decomposable iff their definitions (arity 3 and 4 products: ALL pairs; sums; a product over a non-smooth sum in "
-                 "both input orders), is_structured_decomposable and are_compatible sound w.r.t. 'same scope => same set of sub-scopes', are_compatible symmetric "
+                 "both input orders), Scope.__hash__ respects equality of scopes (hash a function of the set, iteration order of a set arbitrary), "
+                 "is_structured_decomposable and are_compatible sound w.r.t. 'same scope => same set of sub-scopes', are_compatible symmetric "
                  "and independent of product-input order; arbitrary circuits (incl. empty scopes, renaming of variables) by the bounded stand-in against an "
                  "independent set-based oracle"),
     "C09": mixed("contract obligations: integrate / differentiate / multiply refuse a non-smooth and a non-decomposable (non-adjacent overlap in an "
                  "arity-3 product) template with StructuralPropertyError; integrate and evidence refuse empty / foreign variable sets, differentiate and the "
                  "polynomial rule refuse orders <= 0, rules refuse foreign scopes (ValueError); multiply of product layers listing their inputs in different scope "
-                 "orders is refused or returns a circuit that is still smooth and decomposable (Hadamard and Kronecker, three input kinds); result scope / output "
-                 "order clauses of C03/C06/C07 templates; "
+                 "orders - every permutation of arity 2 and 3 - is refused or returns a circuit that is still smooth and decomposable (Hadamard and Kronecker, "
+                 "three input kinds); result structure of every operator on the templates (smooth, decomposable, documented scope and number of outputs, products "
+                 "of SD operands SD and compatible with both operands by the definition, conjugation keeps every flag); "
                  "flags of results of arbitrary circuits recomputed by an independent oracle only in the bounded stand-in"),
     "C10": mixed("contract obligations: Parameter.ref on seven parameter-graph shapes and Layer.copyref for every layer class denote the same value of "
                  "the SAME tensor objects, own no tensor parameter, and use operand tensors only behind references; the same sharing clause on every "
                  "operator rule (registered under this property too) and on the results of integrate / conjugate / evidence / multiply templates; "
                  "TorchPointerParameter reads the current target slice; frame obligations: no evaluation method of a compiled module writes object state (so every "
                  "in-place update is observed) and reset_parameters of a circuit / parameter graph / pointer reaches only its own parameter graphs / nodes, never "
-                 "the operand's tensors; update histories "
+                 "the operand's tensors; copies of layers (copyref) and of parameter nodes (__copy__) keep every scalar hyper-parameter the original holds; the "
+                 "compiler's parameter registry and compile_reference_parameter (pointer to the registered tensor at its fold); update histories "
                  "end-to-end by the bounded stand-in"),
     "C11": mixed("contract obligations: log_partition_function / integrate of every exp-family layer return (F, 1, K) with the right value for all "
                  "F, K (no accidental broadcast when batch == folds); forward kernels per fold and batch row; IntegrateQuery: mask sizes for the scope-list "
                  "formats, _layer_fn selects integrate() exactly for layers whose variable is masked per sample, the query object keeps no state between calls; "
                  "end-to-end marginals in the three input formats by the bounded stand-in vs brute-force marginals"),
-    "C12": mixed("contract obligations: RegionGraph.build_circuit on four region-graph templates (tree, two partitions of the root, root region that is itself "
+    "C12": mixed("contract obligations: image_data / tabular_data (what they pass to build_circuit: softmax sum weights by default, mixing over the same factory, per-feature "
+                 "input factories, sizes); RegionGraph.build_circuit on four region-graph templates (+ the default n-ary factory) (tree, two partitions of the root, root region that is itself "
                  "an input region over one / two variables) x {cp, cp-t, tucker}: EVERY sum layer takes its weight from "
                  "the caller's normalising factory (softmax on the last axis of an unconstrained tensor of the sum's own weight shape; n-ary mixing sums from "
                  "the n-ary factory = mixing_weight_factory over a softmax on the arity axis), input layers are the caller's, the circuit is smooth, "
@@ -122,8 +130,8 @@ CHECKS.update({
                  "validity (children of a partition pairwise disjoint and covering it, partitions of a region share its scope, one parent per partition), empty "
                  "scopes refused; is_structured_decomposable iff partitions with equal scope - also under different region nodes - split alike; "
                  "is_omni_compatible iff all child regions univariate; build_circuit on four templates x three abstractions (well-formed, smooth, decomposable, "
-                 "structured-decomposable like the graph, num_classes outputs); the algorithms (numpy / random / image grids / Chow-Liu) and dump / load "
-                 "are covered by the bounded stand-in only (every algorithm over small argument spaces, independent validator, round trip, three abstractions "
+                 "structured-decomposable like the graph, num_classes outputs); FullyFactorized and LinearTree (n <= 4, repetitions <= 2, symbolic orderings for n <= 3) "
+                 "build the documented graph; the other algorithms (numpy random / image grids / Chow-Liu) and dump / load are covered by the bounded stand-in only (every algorithm over small argument spaces, independent validator, round trip, three abstractions "
                  "and explicit factories)"),
     "C15": ("other", "contract obligations on the STRUCTURAL clauses: TorchSumLayer.sample returns, per fold / output unit / sample, the sample of the "
             "component drawn from Categorical(weight) over the same axis h*Ki+i the forward pass weights (and refuses unnormalised weights), Hadamard / "
@@ -144,10 +152,12 @@ CHECKS.update({
                  "preserved over every history by induction): add / lookups / compile memoisation / round trip; PipelineContext operators (refuse unknown "
                  "compiled circuits, apply the symbolic operator with the context's own registry, compile the result); compile_pipeline on three operand-DAG "
                  "shapes x three pre-states; context enter/exit with the ContextVar contract for nesting depths 1..3 with and without exceptions, sequential "
-                 "re-use, distinct registry per context; random longer histories and topological ordering of arbitrary DAGs by the bounded stand-in"),
+                 "re-use, distinct registry per context; compile_pipeline on six operand-DAG shapes incl. a circuit that is an operand of the root and of another operand; "
+                 "random longer histories by the bounded stand-in"),
     "C19": ("other", "contract obligations (syntactic frame): no evaluation method writes object state, learnable storage is allocated at exactly one "
             "site (TorchTensorParameter._ptensor), reset_parameters of a circuit / parameter graph / pointer re-initialises exactly its own parameter graphs / "
-            "nodes (never a wrapped layer's or the tensor a pointer refers to, so compiling a derived circuit leaves loaded values alone); the decisive step (nn.Module state_dict / load_state_dict) is an assumed contract of a dependency, so "
+            "nodes (never a wrapped layer's or the tensor a pointer refers to, so compiling a derived circuit leaves loaded values alone), every parameter tensor is stored as an nn.Parameter whatever requires_grad (no non-persistent "
+            "buffer), folded pointer groups stay pointers; the decisive step (nn.Module state_dict / load_state_dict) is an assumed contract of a dependency, so "
             "no proof is claimed; BOUNDED STAND-IN: save -> fresh re-initialised (and already evaluated, incl. frozen random tensors) compile -> "
             "load_state_dict(strict) -> equal outputs for base and derived circuits (also derived circuits compiled or reset AFTER the load) under the four flag settings",
             PROOF_NOTE + " || " + BOUNDED_NOTE + "; torch.save/torch.load and nn.Module.state_dict/load_state_dict are trusted",
@@ -156,7 +166,8 @@ CHECKS.update({
                  "constants by shape); cp / tucker circuits for tensor orders 2-4 (factor j over variable j with shape[j] states and rank units, product "
                  "over all factors in mode order - Kronecker for tucker with rank**n units -, unweighted cp sums with constant ones), hmm for 12 orderings of "
                  "1-4 variables (chain follows the ordering, the input layer of variable v gets the arguments listed for v, latent units, one output unit, "
-                 "non-permutations refused), fully_factorized; the numeric identities against explicit contractions / forward algorithm, the values of tensor_train's "
+                 "non-permutations refused), fully_factorized; LogicalCircuit.smooth on formula templates with variable 0 in every role (every disjunction smooth, smoothing "
+                 "nodes x OR NOT x, truth value unchanged under every assignment); the numeric identities against explicit contractions / forward algorithm, the values of tensor_train's "
                  "constant matrices and the logic-circuit templates are covered by the bounded stand-in"),
 })
 
